@@ -333,8 +333,11 @@ func (m *MonSwaps) checkPrice(s *Sim, eb *ExecBlock, pool ammtypes.Pool, se *swa
 					s.Violate("C03", "weighted_out_exceeds_formula", culprit, "%s weights %s/%s: paid out %.0f, weighted-product formula allows %.3f (+%.3f allowance)", inst, win, wout, ao, bound, allow)
 				}
 			} else if ao < bo {
-				bound := bi * (math.Pow(bo/(bo-ao), wo/wi) - 1)
-				allow := bi*1e-8 + 1
+				pw := math.Pow(bo/(bo-ao), wo/wi)
+				bound := bi * (pw - 1)
+				// 1e-8 RELATIVE precision of the power term (which is >= 1 here and can be large
+				// when most of the reserve is bought), i.e. B_in * pow * 1e-8, plus one base unit
+				allow := bi*pw*1e-8 + 1
 				if ai < bound-allow {
 					s.Violate("C03", "weighted_in_below_formula", culprit, "%s weights %s/%s (exact-out): charged %.0f, weighted-product formula requires %.3f (-%.3f allowance)", inst, win, wout, ai, bound, allow)
 				}
